@@ -27,7 +27,9 @@ def main():
 
         fo = FailOpen(k=int(k) if k is not None else None, mode=os.environ.get("DTVERIF_FAIL_MODE"),
                       crash=os.environ.get("DTVERIF_FAIL_CRASH") == "1", root=os.environ.get("DTVERIF_FAIL_ROOT"))
-        bind_open(fo, [doctrans.emit, doctrans.gen, doctrans.conformance, doctrans.sync_properties])
+        import shutil as _shutil
+
+        bind_open(fo, [doctrans.emit, doctrans.gen, doctrans.conformance, doctrans.sync_properties, _shutil])
     if j is not None:
         from dtverif.faults import fail_emitters
 
